@@ -7,6 +7,7 @@ package main
 import (
 	"fmt"
 	"go/types"
+	"math"
 	"strconv"
 	"strings"
 
@@ -845,6 +846,42 @@ func init() {
 			return s
 		}
 		ex.rpanic("reflect.Value.Bytes", rv)
+		return nil
+	})
+	setIntrinsic("(reflect.Value).OverflowUint", func(ex *Exec, fn *ssa.Function, a []Value) Value {
+		rv := R(a)
+		switch kindOf(rv.T) {
+		case kUint, kUint8, kUint16, kUint32, kUint64, kUintptr:
+			w := bvWidth(rv.T)
+			x := a[1].(*Term)
+			return Not(Eq(ZExt(Extract(x, w-1, 0), 64), x))
+		}
+		ex.rpanic("reflect.Value.OverflowUint", rv)
+		return nil
+	})
+	setIntrinsic("(reflect.Value).OverflowInt", func(ex *Exec, fn *ssa.Function, a []Value) Value {
+		rv := R(a)
+		switch kindOf(rv.T) {
+		case kInt, kInt8, kInt16, kInt32, kInt64:
+			w := bvWidth(rv.T)
+			x := a[1].(*Term)
+			return Not(Eq(SExt(Extract(x, w-1, 0), 64), x))
+		}
+		ex.rpanic("reflect.Value.OverflowInt", rv)
+		return nil
+	})
+	setIntrinsic("(reflect.Value).OverflowFloat", func(ex *Exec, fn *ssa.Function, a []Value) Value {
+		rv := R(a)
+		switch kindOf(rv.T) {
+		case kFloat64:
+			return falseT
+		case kFloat32:
+			x := a[1].(*Term)
+			ax := Ite(FCmp("fp.lt", x, mkF64(0)), FNeg(x), x)
+			inf := FCmp("fp.eq", ax, mkF64(math.Inf(1)))
+			return And(FCmp("fp.gt", ax, mkF64(math.MaxFloat32)), Not(inf))
+		}
+		ex.rpanic("reflect.Value.OverflowFloat", rv)
 		return nil
 	})
 	setIntrinsic("(reflect.Value).Addr", func(ex *Exec, fn *ssa.Function, a []Value) Value {
